@@ -1,6 +1,10 @@
-(** Correspondence for C15: real manifest.Manager (LogEdits with a rewrite
-    threshold, Close, Verify, Open) vs [Model/Manifest.v: apply].  Versions are
-    exchanged in canonical form (Spec/ManifestSpec.v: canon) as flat edits. *)
+(** Correspondence for C15: real manifest.Manager vs [Model/Manifest.v].
+    Versions are exchanged in the canonical form [Spec/ManifestSpec.v: canon] as flat edits.
+
+    [Cm]: LogEdits batches with a rewrite threshold, Close, Verify, Open.
+    [Cc]: the same run on a recording vfs.FS that snapshots the directory at every
+    operation (and at torn prefixes of every write); each snapshot is reopened by the
+    real Verify + Open. *)
 From Coq Require Export List NArith Bool String.
 From NoKV Require Export Base.Bytes Base.Num Corr.Common.
 From NoKV Require Import Model.ManifestCodec Model.Manifest Spec.ManifestSpec Corr.RunCodec.
@@ -10,20 +14,72 @@ Local Open Scope N_scope.
 Definition flat := RunCodec.flat.
 Definition H (s : string) : bytes := unhex s.
 
-Record case := {
-  c_threshold : N;            (* rewrite threshold in bytes, 0 = disabled *)
-  c_edits : list flat;        (* edits logged, in order *)
-  c_mem : list flat;          (* canonical Manager.Current() before Close *)
-  c_disk : list flat;         (* canonical Current() of a manager reopened on the directory *)
-  c_err : N                   (* 0 = Verify and Open succeeded *)
-}.
-Definition Cm t e m d x := {| c_threshold := t; c_edits := e; c_mem := m; c_disk := d; c_err := x |}.
+Inductive case :=
+| Cm (thr : N) (batches : list (list flat)) (mem disk : list flat) (err : N)
+    (* Current() before Close, Current() of the reopened manager, 0 = Verify and Open succeeded *)
+| Cc (thr : N) (batches : list (list flat)) (crashes : list (N * list (list flat * N))).
+    (* per in-flight batch index k: the states recovered from the snapshots taken during
+       LogEdits(batch k), each with the error class of Verify/Open (0 = ok) *)
 
 Definition flats_eqb (a b : list flat) : bool := RunCodec.list_eqb RunCodec.flat_eqb a b.
+Definition vflat (v : version) : list flat := map RunCodec.flat_edit (canon v).
+
+Definition unflat_batches (bs : list (list flat)) : list (list edit) := map (map RunCodec.unflat_edit) bs.
+
+Definition rr_flat (r : replay_res) : option (list flat) :=
+  match r with RpOk v => Some (vflat v) | _ => None end.
+
+Fixpoint upto (n : nat) : list N :=
+  match n with O => [0] | S n' => upto n' ++ [N.of_nat (S n')] end.
+
+(** all crash states of the model for [LogEdits m batch], as recovered canonical versions *)
+Definition model_crash_states (m : mgr) (batch : list edit) : list (option (list flat)) :=
+  let m1 := appended m batch in
+  let app_bytes := enc_all batch in
+  let s1 := map (fun c => rr_flat (recover (man_set (m_fs m) (m_cur m) (cur_bytes m ++ take c app_bytes))))
+                (upto (List.length app_bytes)) in
+  if needs_rewrite m1 then
+    let snap := enc_all (snapshot_edits (m_ver m1)) in
+    let id := new_id m1 in
+    s1 ++
+    map (fun c => rr_flat (recover (man_set (m_fs m1) id (take c snap)))) (upto (List.length snap)) ++
+    [rr_flat (recover (set_tmp (man_set (m_fs m1) id snap) (Some [])));
+     rr_flat (recover (set_tmp (set_current (man_set (m_fs m1) id snap) id) None));
+     rr_flat (recover (m_fs (rewritten m1)))]
+  else s1.
+
+Definition opt_flats_eqb (a : option (list flat)) (b : list flat * N) : bool :=
+  match a with
+  | Some f => (snd b =? 0) && flats_eqb f (fst b)
+  | None => negb (snd b =? 0)
+  end.
+
+(** the specification: some prefix length j, acked <= j <= acked + |batch| *)
+Fixpoint prefix_state_in (v : version) (rest : list edit) (obs : list flat) : bool :=
+  flats_eqb (vflat v) obs ||
+  match rest with
+  | [] => false
+  | e :: rest' => prefix_state_in (apply v e) rest' obs
+  end.
 
 Definition check (c : case) : verdict :=
-  let es := map RunCodec.unflat_edit (c_edits c) in
-  let m := map RunCodec.flat_edit (canon (apply_all empty_version es)) in
-  mk_verdict (negb (flats_eqb m (c_mem c)))
-             (negb (flats_eqb (c_mem c) (c_disk c) && (c_err c =? 0)))
-             0.
+  match c with
+  | Cm thr batches mem disk err =>
+      let bs := unflat_batches batches in
+      let m := log_all (create_new thr) bs in
+      mk_verdict (negb (flats_eqb (vflat (m_ver m)) mem
+                        && match rr_flat (reload (m_fs m)) with Some f => flats_eqb f disk | None => false end))
+                 (negb (flats_eqb mem disk && (err =? 0)))
+                 0
+  | Cc thr batches crashes =>
+      let bs := unflat_batches batches in
+      let res := map (fun kc =>
+        let k := N.to_nat (fst kc) in
+        let m := log_all (create_new thr) (firstn k bs) in
+        let batch := nth k bs [] in
+        let states := model_crash_states m batch in
+        let mism := existsb (fun o => negb (existsb (fun s => opt_flats_eqb s o) states)) (snd kc) in
+        let viol := existsb (fun o => negb ((snd o =? 0) && prefix_state_in (m_ver m) batch (fst o))) (snd kc) in
+        (mism, viol)) crashes in
+      mk_verdict (existsb fst res) (existsb snd res) 0
+  end.
